@@ -3,7 +3,7 @@
    version through the switch tables goextract read from ParseVersion, so the
    statements below are about the constants, tables and regular expression
    that are in version.go on this run. *)
-From Apko Require Import Base.Prelude Base.Regex Spec.VersionSpec Model.Version Proofs.VersionProofs
+From Apko Require Import Base.Prelude Base.Regex Spec.VersionSpec Model.Version Proofs.VersionProofs Proofs.ConstraintProofs
   Generated.Regexes Generated.VersionConsts Generated.C03Version.
 Open Scope Z_scope.
 
@@ -64,6 +64,32 @@ Theorem c03_accept_iff_grammar_refuted :
   exists s, L apk_version_re (bytes_of_string s) /\ parse_version s = None.
 Proof. exact grammar_valid_rejected. Qed.
 Print Assumptions c03_accept_iff_grammar_refuted.
+
+(* a constraint assembled from clean parts — a non-empty name without = < > ~ @,
+   a non-empty operator run, a non-empty version without @ that does not start
+   with an operator character, an optional alphanumeric pin — is accepted by
+   the source's packageNameRegex and split into exactly those parts (the so:
+   rewrite aside), for all such parts *)
+Theorem c03_constraint_split : forall s0 name ops v pin,
+  bytes_of_string s0 = (name ++ ops ++ v ++ pin_tail pin)%list ->
+  no_so_prefix (bytes_of_string s0) ->
+  clean name ops v pin ->
+  resolve_constraint s0 =
+    {| c_name := string_of_bytes name; c_version := string_of_bytes v;
+       c_dep := dep_of_matcher (string_of_bytes ops); c_pin := string_of_bytes pin |}.
+Proof. exact resolve_clean. Qed.
+Print Assumptions c03_constraint_split.
+
+Example c03_constraint_example :
+  resolve_constraint "foo-bar>=1.2_rc1-r3@edge" =
+    {| c_name := "foo-bar"; c_version := "1.2_rc1-r3"; c_dep := dep_versionGreaterEqual; c_pin := "edge" |}
+  /\ clean (bytes_of_string "foo-bar") (bytes_of_string ">=") (bytes_of_string "1.2_rc1-r3") (bytes_of_string "edge").
+Proof.
+  split; [vm_compute; reflexivity|].
+  constructor; try (vm_compute; repeat split; congruence).
+  apply Forall_forall. intros c Hc. vm_compute in Hc.
+  repeat (destruct Hc as [<-|Hc]; [reflexivity|]). contradiction.
+Qed.
 
 (* non-vacuity: real version strings parse, decode and compare *)
 Example c03_example :
